@@ -220,6 +220,13 @@ func smallScope(c *vrep.Ctx, prop string) {
 				cl := cls[ci][ti]
 				for lay := 0; lay < nlay; lay++ {
 					in := vLayout(words, lay)
+					if ci == 0 && ti == 0 {
+						// the oracles below take the input's words from the package's own tokenizer; for these
+						// plain inputs (letters only, blank or line-break separated) that must be the fields
+						if tk := vWords(vTokenize(in)); strings.Join(tk, " ") != strings.Join(strings.Fields(string(in)), " ") {
+							msgs = append(msgs, fmt.Sprintf("layout=%s: the tokenizer sees the words %q in a plain input whose white-space separated words are %q", vLayouts[lay], tk, strings.Fields(string(in))))
+						}
+					}
 					res := cl.Match(in)
 					c.R.Evaluations++
 					if len(res.Matches) > 0 {
